@@ -7,7 +7,7 @@ MC = "model_checking"
 CHECKS = {
  "C04": dict(engine="tlc-trace", design_ref="DESIGN.md §4 C04",
    technique="TLA+ spec (ReplayDetector.tla StepSafe) + TLC exhaustive MC + transition-tour replay and real-scale driver traces validated by TLC",
-   text="TLC checks NoDoubleAccept on the exact sliding-window rule for every configuration W<=5, Max<=11 (both kinds); every transition of that state graph is replayed on the real detector and seeded real-scale histories (windows around every multiple of 64 up to 400, maxima up to 2^64-1, limb-encoded) are recorded; every recorded trace is validated by TLC against the C04 safety spec. Histories in which accept callbacks are invoked later than the next Check (several checks outstanding, callbacks in any order or never: ReplayOut.tla, MC_ReplayOut with two callback slots) are generated as tours of that graph and by a real-scale driver with four slots and validated the same way. A violation is a real recorded history the spec rejects.",
+   text="TLC checks NoDoubleAccept on the exact sliding-window rule for every configuration W<=5, Max<=11 (both kinds); every transition of that state graph is replayed on the real detector and seeded real-scale histories (windows around every multiple of 64 up to 400, maxima up to 2^64-1, limb-encoded) are recorded; every recorded trace is validated by TLC against the C04 safety spec. Histories in which accept callbacks are invoked later than the next Check (several checks outstanding, callbacks in any order or never: ReplayOut.tla, MC_ReplayOut with two callback slots) are generated as tours of that graph and by a real-scale driver with four slots and validated the same way. A violation is a real recorded history the spec rejects. As a note, Apalache discharges the inductive invariant of the mask-word model (ReplayMaskInd.tla) without a bound on the history length.",
    note="trusts TLC, the Json/IOUtils modules, Num.tla (checked against naturals at Base 4); exhaustive only within the stated constants; real-scale part is sampled"),
  "C05": dict(engine="tlc-trace", design_ref="DESIGN.md §4 C05",
    technique="TLA+ spec (ReplayDetector.tla StepExact) + TLC exhaustive MC + transition-tour replay and real-scale driver traces validated by TLC",
